@@ -103,7 +103,8 @@ class PythonCV2XLinkLayer(LinkLayer):
             if self.receive_callback:
                 try:
                     self.receive_callback(data)
-                except NotImplementedError as e:
+                except Exception as e:  # pylint: disable=broad-except
+                    # A malformed or unsupported frame must never stop the receive loop.
                     print("Error decoding packet: " + str(e))
 
     def stop(self) -> None:
